@@ -744,6 +744,8 @@ def mkref(e):
 def project(e, pe):
     if e[0] == "phi":
         return ("phi", tuple(project(a, pe) for a in e[1]))
+    if e[0] == "ite":
+        return ("ite", e[1], tuple((k, project(v, pe)) for k, v in e[2]))
     if pe == "*":
         if e[0] == "ref":
             return e[1]
@@ -857,6 +859,10 @@ def show(e, depth=0):
         return "…"
     k = e[0]
     d = depth + 1
+    if not isinstance(k, str):
+        return "(" + ", ".join(show(a, d) if isinstance(a, tuple) else str(a) for a in e) + ")"
+    if k == "ite":
+        return "ite(" + show(e[1], d) + " ? " + " ; ".join(f"{key}: {show(v, d)}" for key, v in e[2]) + ")"
     if k == "param":
         return f"{e[2] or '_' + str(e[1])}"
     if k == "int":
